@@ -376,6 +376,32 @@ pub fn generate(s: &mut Session, thorough: bool) -> bool {
             }
         }
     }
+    // (iv-a2) history of the clustering: track events (with clusters, tracks and mostly a vertex)
+    // computed one after the other on this long-lived thread and each on a fresh thread; a Hough
+    // accumulator or any other container kept between events changes tie-breaking (seed C11-10)
+    for run in [u32::MAX] {
+        let Some(g) = c09::Geometry::new(run) else { continue };
+        for k in 0..(if thorough { 120 } else { 24 }) {
+            let spec: Spec = g.event(&mut rng, 2 + k % 3, 16 + (k % 5) * 3, if k % 2 == 0 { 0.0 } else { 2.0 }, 420, 330);
+            let banks = c10::spec_banks(&mut rng, &spec);
+            let (imp, here) = outcome(run, &banks, true);
+            let fresh = std::thread::scope(|sc| {
+                std::thread::Builder::new()
+                    .stack_size(thread_stack())
+                    .spawn_scoped(sc, || outcome(run, &banks, true).1)
+                    .expect("spawn")
+                    .join()
+                    .unwrap_or_else(|_| "panic in thread".to_string())
+            });
+            let why = if fresh != here {
+                Some(format!("a fresh thread computed `{fresh}`, this long-lived thread `{here}`"))
+            } else {
+                None
+            };
+            s.push_oracle("cluster-history", c10::request_line(run, &banks), imp, why);
+            cx.child_lines.push((c10::request_line(run, &banks).replacen("event", "c11res", 1), format!("res {here}")));
+        }
+    }
     // (iv-b) history on one thread: events with one wide block of contiguous wires, a wider one before a
     // narrower one and vice versa. Every event is computed on this (long-lived) thread, on 4 fresh
     // threads and in fresh processes; a solver that keeps anything from an earlier, larger block
